@@ -17,6 +17,9 @@ use crate::{
     Error,
 };
 
+/// Upper bound on the decoded size of a serialized program (16 MiB).
+const MAX_PROGRAM_BYTES: usize = 1 << 24;
+
 #[derive(Clone, Debug, Encode, Decode, Serialize, Deserialize)]
 struct Program {
     instructions: Vec<Instruction>,
@@ -144,9 +147,11 @@ impl Relation for ZkirRelation {
     }
 
     fn read_relation<R: io::Read>(reader: &mut R) -> io::Result<Self> {
+        // Bound what the decoder may claim: collection lengths are read from
+        // the (untrusted) input and are allocated up front otherwise.
+        let config = bincode::config::standard().with_limit::<MAX_PROGRAM_BYTES>();
         let program: Program =
-            bincode::decode_from_std_read(reader, bincode::config::standard())
-                .map_err(io::Error::other)?;
+            bincode::decode_from_std_read(reader, config).map_err(io::Error::other)?;
 
         Self::from_instructions(&program.instructions)
             .map_err(|e| io::Error::other(format!("{e:?}")))
